@@ -25,7 +25,8 @@ func TestMain(m *testing.M) {
 		"a registry of handlers over a family of 4 types per marshaler (command: unique per type; event: several per type; group: ordered list with repeated types) x a stream of messages "+
 		"{value sent through the real bus (incl. zero values), type without handler, malformed payload under a known name, foreign message without name} each delivered to a chosen handler's subscription, with a per-delivery set of failing handlers. "+
 		"Oracle = model of the bus Publish (topic, name metadata, payload decodes to the value) and of the invoked handler list (order, values, original message in ctx) and settlement. "+
-		"Non-trivial: the stream contains a non-matching/malformed message or a failing handler. Distinct by canonical case encoding.")
+		"Non-trivial: the stream contains a non-matching/malformed message or a failing handler. Distinct by canonical case encoding."+
+		" Deliveries may carry a context that already names another original message; handlers may relabel the message they were shown (dispatch is judged by the name it arrived with).")
 	lib.Extra("assumptions", []string{
 		"topics are scripted: the harness delivers a message to a handler's subscription, the processor decides by type name",
 		"malformed payload: handler not invoked and the message is not acked (Nack expected)",
